@@ -407,9 +407,9 @@ func (st *State) checkCallOutAllowed(fr *Frame, kind string, pos token.Pos) {
 }
 
 // evalHolds evaluates the (key, object) expressions of a holds clause.
-func (st *State) evalHolds(vars map[string]Val, old *Snapshot, h [3]string, where string) (string, string) {
+func (st *State) evalHolds(vars map[string]Val, old *Snapshot, h [3]string, where, fnName string) (string, string) {
 	e := st.e
-	sc := &SpecCtx{st: st, vars: vars, old: old, where: where}
+	sc := &SpecCtx{st: st, vars: vars, old: old, where: where, fn: fnName}
 	kx, err := parseSpecExpr(h[0])
 	if err != nil {
 		e.unsupportedf("holds: %v", err)
@@ -477,7 +477,7 @@ func (st *State) onGo(fr *Frame, x *ssa.Go, fv Val) {
 	if c == nil {
 		return
 	}
-	sc := &SpecCtx{st: st, vars: vars, old: st.snapshot(), where: "go " + name}
+	sc := &SpecCtx{st: st, vars: vars, old: st.snapshot(), where: "go " + name, fn: name}
 	st.evalLets(sc, c)
 	for i, r := range c.Requires {
 		label := r.Label
@@ -487,7 +487,7 @@ func (st *State) onGo(fr *Frame, x *ssa.Go, fv Val) {
 		st.oblige("pre", name+"."+label, mergeProps(r.Props, e.curProps), e.evalClause(sc, r), x.Pos())
 	}
 	for _, h := range c.Holds {
-		k, o := st.evalHolds(vars, sc.old, h, "go "+name)
+		k, o := st.evalHolds(vars, sc.old, h, "go "+name, name)
 		var conds []string
 		idx := -1
 		for i, t := range st.tokens {
@@ -525,7 +525,7 @@ func (st *State) onFunctionEntry(fr *Frame) {
 		return
 	}
 	for _, h := range c.Holds {
-		k, o := st.evalHolds(fr.specVars, fr.old, h, fr.fn.Name()+" holds")
+		k, o := st.evalHolds(fr.specVars, fr.old, h, fr.fn.Name()+" holds", fr.fn.RelString(st.e.P.TPkg))
 		st.tokens = append(st.tokens, buildTok{key: k, obj: o, typ: h[2]})
 	}
 }
